@@ -21,8 +21,9 @@ CLAIM = dict(
          "built (serial and threaded) on corpus + random generator sets (lattices, perturbed lattices, clustered, coplanar, cospherical, near walls, non-cubic/offset "
          "boxes); for every cell of NewVoronoiGrid the reported neighbour list is certified exactly in the class's own internal integer-mantissa coordinates, every "
          "get_index lookup is checked exactly, facet symmetry is decided by the extracted neighbour_symmetric_check on exact facet flags.",
-    note="THEOREM-BACKED verdicts: (a) neighbour structure = Voronoi cell of the internal positions, (b) lookups nearest (exact; a documented 2^-49/2^-47 slack "
-         "class for ties within rounding of the float search). ORACLE/VALIDATION only (tolerances, no theorem): volumes>0 and sum to the box volume, "
+    note="THEOREM-BACKED verdicts: (a) neighbour structure = Voronoi cell of the internal positions (check_cell; cells of exactly degenerate sets on which the class "
+         "misses a face of relative size <= 2^-40 are certified by check_cell_eps with that eps and counted separately; observed excess 1e-26), (b) lookups nearest "
+         "(exact; a documented 2^-49/2^-47 slack class for ties within rounding of the float search). ORACLE/VALIDATION only (tolerances, no theorem): volumes>0 and sum to the box volume, "
          "volume/centroid/face area/midpoint against values recomputed from the exact vertex set of the reported polytope in real coordinates with a conditioning-scaled "
          "tolerance, area symmetry, Old-vs-New volumes/centroids/neighbours inside OldVoronoiGrid's tolerance domain, threaded == serial bit for bit. The check does NOT "
          "prove the algorithms correct for all inputs: it certifies each explored output. Trusted: Coq kernel, extraction (ExtrOcamlBasic) + OCaml, ocaml/c15_driver.ml "
@@ -1458,6 +1459,8 @@ def run(ck):
                              % (kind, pr["cls"] + ("/" + pr["label"] if pr.get("label") else ""), pr["box"], len(small["pts"]), len(pr["pts"]), " || ".join(texts), ",".join(kinds)),
                              pr_replay(small, {"kind": kind, "threads": len(pr["pts"]) > 100}), key={"kind": kind})
         ck.log("pipeline %.1fs" % (time.time() - t0))
+        cov["samples"] = [{"class": q["cls"], "label": q["label"], "box": q["box"], "anchor": list(q["anchor"]), "sides": list(q["sides"]), "generators": len(q["pts"]),
+                           "first_generators": [list(x) for x in q["pts"][:3]], "queries": len(q["qs"])} for q in probs[:3] + probs[-2:]]
         cov["input_classes"] = classes
         cov["set_sizes"] = sizes
         cov["generator_sets"] = done
